@@ -106,6 +106,11 @@ class Ctx:
                 calls.update(o.interp.calls)
             for c in sorted(calls):
                 self.rep.unit(f"abstractly interpreted {c}")
+            pl_ = self.pipeline
+            self.rep.note(f"generated text obtained through the library's entry points (ExperimentEvaluator / generate_code interpreted as "
+                          f"written) for {pl_.through_entry_point} shape runs, by calling the generator directly for {pl_.direct_generator}")
+            self.rep.extra["through_entry_points"] = pl_.through_entry_point
+            self.rep.extra["direct_generator"] = pl_.direct_generator
             self.rep.extra["shape_programs"] = len({id(o.prog) for o in res})
             self.rep.extra["template_instances"] = len(res)
         return cache[tier]
